@@ -462,7 +462,10 @@ theorem grammar_fine {ts : List Token} (h : WFS ts) : (grammar ts).Fine ts := by
   | err p c => exact e1.err_of h1
   | ok pkg ts1 =>
     have k1 := e1.ok_of h1
-    exact (parseDefs_fine _ _ _ k1.1 (Nat.lt_succ_self _)).mono k1.2
+    simp only
+    split
+    · exact k1
+    · exact (parseDefs_fine _ _ _ k1.1 (Nat.lt_succ_self _)).mono k1.2
 
 /-! ### `resolveRefs` reports only `unknownType` / `ambiguousType` -/
 
